@@ -36,9 +36,9 @@ def kernel(ctx, func, fibre, skipna):
     return ctx.scalar(getattr(np, func)(arr))
 
 
-def reduce_(ctx, shape, func, axis, skipna=False, dkind='f', nan='sym', q=None, lkinds=None, warm=False):
+def reduce_(ctx, shape, func, axis, skipna=False, dkind='f', nan='sym', q=None, lkinds=None, warm=False, dimnames=None, again=False):
     nd = len(shape)
-    dims = DIMS[:nd]
+    dims = list(dimnames) if dimnames else DIMS[:nd]
     lkinds = lkinds or ['i', 'U', 'f', 'i'][:nd]
     labels = [ctx.labels(k, n, 'l%s_' % d) for d, n, k in zip(dims, shape, lkinds)]
     ncell = 1
@@ -47,7 +47,7 @@ def reduce_(ctx, shape, func, axis, skipna=False, dkind='f', nan='sym', q=None, 
     cells = ctx.cells(dkind, ncell, 'v', nan=(nan == 'sym' and dkind == 'f'))
     if nan == 'all' and dkind == 'f':
         cells = [float('nan')] * ncell
-    attrs = {'units': 'K', 'hist': [1]}
+    attrs = {'units': 'K', 'hist': [1], '_FillValue': -999}      # names starting with an underscore are metadata like any other in the attrs dict
     a = ctx.mk(dims, labels, cells, lkinds=lkinds, kind=dkind, attrs=attrs)
     ref = Ref(dims, labels, cells)
     # axis argument forms: None | name | position | negative position | tuple of names | tuple of positions
@@ -73,6 +73,20 @@ def reduce_(ctx, shape, func, axis, skipna=False, dkind='f', nan='sym', q=None, 
         # the same reduction has been used before in this process, on data without NaN (results must not depend on that)
         w = ctx.mk(dims, labels, [float(i + 1) for i in range(ncell)], lkinds=lkinds, register=False)
         ctx.call(lambda: getattr(w, func)(**kw))
+    if again:
+        # the same reduction has been asked of this very array before, and the array has been edited in place since:
+        # the answer is about the current values
+        ctx.call(lambda: getattr(a, func)(**kw))
+        cells = ctx.cells(dkind, ncell, 'w', nan=(nan == 'sym' and dkind == 'f'))
+        if again == 'setitem':
+            a[...] = ctx.nparray(cells, shape, dkind)
+        elif again == 'values':
+            a.values[...] = ctx.nparray(cells, shape, dkind)
+        else:
+            for p, c in zip(itertools.product(*[range(n) for n in shape]), cells):
+                a.ix[tuple(p)] = c
+        ref = Ref(dims, labels, cells)
+        ctx.operands[-1]['cells'] = list(cells)
     if func == 'percentile':
         if isinstance(axis, list) or axis is None:
             raise ValueError("percentile: single axis only")
@@ -246,6 +260,20 @@ def templates():
     for q in (50, 25.0, 0, 100):
         for shape, axis in (([3], 0), ([2, 2], 'pos0'), ([2, 2], 1), ([3, 1], 0), ([1, 3, 1], 1)):
             add('percentile-%s-%s-%s' % (q, 'x'.join(map(str, shape)), axis), 'reduce_', cost=0.5, shape=shape, func='percentile', axis=axis, q=q)
+    # dimension names that are not in alphabetical order, square surviving shapes (a mix-up of the surviving axes keeps the shape)
+    for names in (['t', 'y', 'x'], ['time', 'lat', 'lon'], ['c', 'b', 'a']):
+        for axis in ('pos0', 0, 'pos1', 2, -1):
+            for func in ('percentile', 'mean', 'median', 'max'):
+                add('%s-dimnames-%s-%s' % (func, ''.join(n[0] for n in names), axis), 'reduce_', cost=0.5, shape=[2, 2, 2], func=func, axis=axis, q=50 if func == 'percentile' else None,
+                    dimnames=names, nan='none')
+    # the same reduction twice on one array with an in-place edit in between (single axis, tuples that need / do not need a transposition)
+    for func in ('mean', 'sum', 'median', 'max'):
+        for axis in (['names', 2, 0], ['names', 0, 1], ['names', 1, 0], 'pos1', None):
+            for how in ('setitem', 'values', 'ix'):
+                if how != 'setitem' and (func != 'mean'):
+                    continue
+                nm = axis if not isinstance(axis, list) else 'g' + ''.join(map(str, axis[1:]))
+                add('%s-again-%s-%s' % (func, nm, how), 'reduce_', cost=1, shape=[2, 2, 2], func=func, axis=axis, again=how, nan='none')
     add('percentile-list', 'percentile_list', cost=1, shape=[3, 2], axis=0, qs=[25, 50])
     add('percentile-list-1', 'percentile_list', cost=1, shape=[2, 3], axis=1, qs=[10.0, 50.0, 90.0])
     for dt in ('float32', 'float16'):
